@@ -438,6 +438,7 @@ func TestVerifC08PeriodRace(t *testing.T) {
 	store := redis.New(mr.Addr())
 	const G = 32
 	rounds := vk.N(10, 150)
+	abandoned := 0
 	for i := 0; i < rounds; i++ {
 		if !m.Only(i) {
 			continue
@@ -463,17 +464,35 @@ func TestVerifC08PeriodRace(t *testing.T) {
 		dup := false
 		wave := func(w int) []c08PObs {
 			e0 := srv.evals.Load()
+			var all []c08PObs
 			defer func() {
-				if e := srv.evals.Load() - e0; e != int64(G*per) {
-					// a script was repeated by the client or never arrived: the server
-					// counted a different number of takes than were issued
+				e := srv.evals.Load() - e0
+				answered := int64(0)
+				for _, o := range all {
+					if o.err == nil {
+						answered++
+					}
+				}
+				switch {
+				case e == int64(G*per):
+				case e < answered:
+					// every Take that reports a code without an error must have had its own
+					// increment executed (the period limiter has no other source of answers)
 					dup = true
+					m.Violate("C08:period-race:answers-exceed-increments", desc,
+						"wave %d: %d concurrent Take calls returned a code with a nil error, but the server executed only %d scripts: %d takes were answered without being counted (quota %d)",
+						w, answered, e, answered-e, quota)
+				default:
+					// a script was repeated by the client (e > takes) or some takes failed
+					// before reaching the server: the server's count is not the number of
+					// answered takes in a way the multiset oracle could use
+					dup = true
+					abandoned++
 					m.Count("race.abandoned-evals!=takes", 1)
-					m.Note("case %d wave %d: %d takes caused %d EVALs; round abandoned", i, w, G*per, e)
+					m.Note("case %d wave %d: %d takes (%d answered) caused %d EVALs; round abandoned", i, w, G*per, answered, e)
 				}
 			}()
 			var mu sync.Mutex
-			var all []c08PObs
 			var wg sync.WaitGroup
 			gate := make(chan struct{})
 			for g := 0; g < G; g++ {
@@ -577,12 +596,28 @@ func TestVerifC08PeriodRace(t *testing.T) {
 		w1 := wave(0)
 		mr.FastForward(time.Duration(period)*time.Second - time.Millisecond)
 		w2 := wave(1)
-		ok := !dup && check("1(w1+w2)", append(append([]c08PObs{}, w1...), w2...))
+		// counter: with every take counted once, the key holds the number of takes of the window
+		counter := func(win string, obs []c08PObs) bool {
+			n := map[int]int{}
+			for _, o := range obs {
+				n[o.key]++
+			}
+			for k, want := range n {
+				got, err := mr.Get(fmt.Sprintf("c08r%d:k%d", i, k))
+				if err != nil || got != fmt.Sprint(want) {
+					m.Violate("C08:period-race:counter!=takes", desc, "window %s key k%d: %d takes were answered, the counter key holds %q (err %v)", win, k, want, got, err)
+					return false
+				}
+			}
+			return true
+		}
+		w12 := append(append([]c08PObs{}, w1...), w2...)
+		ok := !dup && check("1(w1+w2)", w12) && counter("1(w1+w2)", w12)
 		overs := 0
 		if ok {
 			mr.FastForward(time.Millisecond)
 			w3 := wave(2)
-			ok = !dup && check("2(w3)", w3)
+			ok = !dup && check("2(w3)", w3) && counter("2(w3)", w3)
 			for _, o := range append(w1, append(w2, w3...)...) {
 				if o.code == OverQuota {
 					overs++
@@ -605,4 +640,7 @@ func TestVerifC08PeriodRace(t *testing.T) {
 		mr.FlushAll()
 	}
 	c08TooManyErrors(m, rounds)
+	if abandoned*2 > rounds {
+		m.Inconclusive("%d of %d concurrent rounds could not be judged (script executions != takes)", abandoned, rounds)
+	}
 }
